@@ -7,7 +7,32 @@ CLAIMED = {
  "C05": ("proof", "The canonical-shape clauses (valid ranges, pairwise separated, >=2 ranges, exact class of the result, empty-iff-disjoint) of every operator and law are discharged as named obligations for all inputs; exactness of ==/is_empty()/is_any() follows from canonical uniqueness, relative to the dense idealisation of the version order.",
          "5 C05", "as C01, plus density/unboundedness of the version order (property reads membership structurally); canonical-uniqueness lemma", 
          "contract-based deductive verification: canonical-shape post-conditions and loop invariants discharged by z3"),
+
 }
+BOUNDED_TEXT = "Bounded stand-in only (labelled bounded, never counted as proved): the property's contract, transcribed from its statement, is evaluated at run time on the real functions over an enumerated input space whose bound is stated in the evidence; proof obligations for this property are not built yet."
+BOUNDED = {
+ "C02": "markers from the well-defined atom pool, pairs through & and |, evaluated on an environment grid",
+ "C03": "marker texts over the atom pool evaluated by dep-logic and by the installed packaging on an environment grid",
+ "C04": "leaf grammar and expression trees of depth <= 3 against packaging.SpecifierSet.contains on final releases",
+ "C06": "str()/parse round trip over parsed leaves, expression trees and pairwise operator results",
+ "C07": "str() of every result re-parsed by parse_marker and packaging and re-evaluated on the environment grid",
+ "C08": "the property's finite tag universe (majors 2-3, minors 0-20) x requires_python catalogue x implementation settings; exhaustive in the thorough tier",
+ "C09": "the whole C09 platform grid against an independent rule oracle (exhaustive); oracle cross-checked against packaging.tags in the thorough tier",
+ "C10": "cold-vs-warm differential of probe operations after generated histories",
+ "C11": "all listed atom shapes and simple specifiers x interpreter versions X.Y.Z",
+ "C12": "only()/exclude()/without_extras() on pool markers for subsets of their variables",
+ "C13": "all ordered pairs over pools of specifier and marker objects (equal-but-differently-built included), triples on a sub-sample",
+ "C14": "law sweep over triples of reachable specifiers (object equality) and markers (equivalence on the grid)",
+ "C15": "normal-form predicate on every parse/&/|/only/exclude result of the marker sweep",
+ "C16": "EnvSpec grid: nested requires_python pairs x tag universe, platform pairs, compare() on sampled pairs",
+ "C17": "version-text grammar and near-miss strings against packaging.SpecifierSet acceptance",
+ "C18": "PEP 427 file-name grammar against packaging.utils.parse_wheel_filename; Platform.choices() with X,Y substituted",
+ "C19": "all ordered (operator, literal) pairs over a literal pool closed under the case table's relations x candidate strings (exhaustive on the pool)",
+}
+for pid, what in BOUNDED.items():
+    CLAIMED[pid] = ("exploration", BOUNDED_TEXT + " Space: " + what + ".", "3 and 5 " + pid,
+                    "the oracle in rtc/ is a transcription of the property statement; packaging (installed release) trusted where it is the reference; recorded findings in known_findings.json",
+                    "bounded stand-in: run-time contracts on the real functions (rtc)")
 NA_REASON = "check not built yet in this session (work in progress; see DESIGN.md section 5)"
 ALL = ["C%02d" % i for i in range(1, 20)]
 m = {"version": 1, "setup_cmd": "python3-vt check.py --setup",
